@@ -61,6 +61,13 @@ PROPS = {
     "C18": {"jobs": [J("dobj", "wl_dobj", 100000, 2500000)]},
     "C19": {"jobs": [J("trip.explicit", "wl_trip", 200000, 5000000, mode="explicit"),
                      J("trip.static", "wl_trip", 6000, 150000, mode="static", fork_each=1)]},
+    "C20": {"jobs": [J("lr.throw", "wl_lr", 150000, 4000000, mode="throw")] +
+            wrappers("throw", ["guarded", "guarded_opt", "ordered_guarded", "atomic_guarded",
+                               "shared_guarded"], 50000, 1200000) +
+            [J("deferred.throw", "wl_deferred", 80000, 2000000, mode="throw"),
+             J("cow.throw", "wl_cow", 80000, 2000000, mode="throw"),
+             J("soh.throw", "wl_soh", 80000, 2000000, mode="throw"),
+             J("dd.throw", "wl_dd", 80000, 2000000, mode="throw")]},
 }
 
 
